@@ -62,6 +62,10 @@ func scenarios() []scenario {
 			scenario{"cross keys/" + tag, pre, [][]op{{s("a", "x"), g("b")}, {s("b", "y"), g("a")}}},
 			scenario{"get,get||set,del/" + tag, pre, [][]op{{g("a"), g("a")}, {s("a", "x"), d("a")}}},
 			scenario{"get||get||set/" + tag, pre, [][]op{{g("a")}, {g("a")}, {s("a", "x")}}},
+			// three goroutines, two operations each (read-after-own-write on a contended key)
+			scenario{"set,get||del,get||set,get/" + tag, pre, [][]op{{s("a", "x"), g("a")}, {d("a"), g("a")}, {s("a", "y"), g("a")}}},
+			scenario{"has,set||get,del||has,get/" + tag, pre, [][]op{{h("a"), s("a", "x")}, {g("a"), d("a")}, {h("a"), g("a")}}},
+			scenario{"cross keys 3/" + tag, pre, [][]op{{s("a", "x"), g("b")}, {s("b", "y"), d("a")}, {g("a"), g("b")}}},
 		)
 	}
 	return out
